@@ -1,9 +1,19 @@
 package c16
 
 // C16 correspondence + monitors: sweeps the REAL message router of the full app.
-//  * correspondence stream: the fx-core authority-carrying messages with valid payloads and bech32 authority
-//    candidates; observation `rejected` / `past-guard`, compared with the Lean model run over the regenerated handler
-//    table; plus raw-store compare-and-set sequences (MsgUpdateStore) compared with the Lean KV model;
+//  * correspondence stream (`call` lines): the fx-core authority-carrying messages, valid and zero-valued payloads, with
+//    authority candidates of every kind (governance, its upper-case spelling, other module accounts, the module account
+//    of every name in the payload, every address in the payload, random accounts, look-alike / malformed encodings);
+//    observation = the stage the message ends in (`rejected:authority-format` by ValidateBasic's address decoding,
+//    `rejected:payload`, `rejected:signer` by the handler's guard, `past-guard`), compared with the Lean model, which
+//    evaluates the regenerated ValidateBasic facts, bech32 decoding, the regenerated dispatch tables (method promotion)
+//    and the regenerated guard expressions;
+//  * `bech` / `fold` lines: sdk.AccAddressFromBech32 and strings.EqualFold on mutated spellings of the governance
+//    address against the Lean bech32 / case-folding model;
+//  * `cas` lines: MsgUpdateStore sequences over scratch ranges of several stores (same key twice, stale old values,
+//    unknown spaces, foreign and malformed authorities); observation = the scratch ranges after the message AND the
+//    handler's own context after a failure (partial writes), compared with the Lean interpreter of the regenerated loop;
+//  * `prop` lines: passed governance proposals with several MsgUpdateStore messages through the real end-blocker;
 //  * monitor stream: EVERY routed message type with an `Authority` string field (found by reflection: SDK, IBC,
 //    ethermint ones included), zero and valid payloads, junk / look-alike authorities: must be an error and leave all
 //    stores byte-for-byte unchanged;
@@ -23,19 +33,22 @@ import (
 	"time"
 
 	sdkmath "cosmossdk.io/math"
+	storetypes "cosmossdk.io/store/types"
 	sdk "github.com/cosmos/cosmos-sdk/types"
 	authtypes "github.com/cosmos/cosmos-sdk/x/auth/types"
 	banktypes "github.com/cosmos/cosmos-sdk/x/bank/types"
 	distrtypes "github.com/cosmos/cosmos-sdk/x/distribution/types"
 	govtypes "github.com/cosmos/cosmos-sdk/x/gov/types"
+	govv1 "github.com/cosmos/cosmos-sdk/x/gov/types/v1"
 	"github.com/cosmos/gogoproto/proto"
+	"github.com/ethereum/go-ethereum/common"
 
 	"github.com/functionx/fx-core/v8/testutil/helpers"
 	fxtypes "github.com/functionx/fx-core/v8/types"
 	crosschaintypes "github.com/functionx/fx-core/v8/x/crosschain/types"
 	erc20types "github.com/functionx/fx-core/v8/x/erc20/types"
-	ethtypes "github.com/functionx/fx-core/v8/x/eth/types"
 	fxevmtypes "github.com/functionx/fx-core/v8/x/evm/types"
+	fxgov "github.com/functionx/fx-core/v8/x/gov"
 	fxgovtypes "github.com/functionx/fx-core/v8/x/gov/types"
 
 	"fxverif/harness/hx"
@@ -61,22 +74,87 @@ func hasAuthority(m proto.Message) bool {
 	return f.IsValid() && f.Kind() == reflect.String
 }
 
+// payloadStrings collects every string in the payload of a message (fields other than Authority, nested structs, slices).
+func payloadStrings(m sdk.Msg) []string {
+	var out []string
+	var walk func(v reflect.Value, depth int)
+	walk = func(v reflect.Value, depth int) {
+		if depth > 4 {
+			return
+		}
+		switch v.Kind() {
+		case reflect.Ptr, reflect.Interface:
+			if !v.IsNil() {
+				walk(v.Elem(), depth+1)
+			}
+		case reflect.Struct:
+			for i := 0; i < v.NumField(); i++ {
+				if v.Type().Field(i).Name == "Authority" && depth == 0 {
+					continue
+				}
+				if v.Type().Field(i).PkgPath != "" {
+					continue
+				}
+				walk(v.Field(i), depth+1)
+			}
+		case reflect.Slice:
+			for i := 0; i < v.Len() && i < 4; i++ {
+				walk(v.Index(i), depth+1)
+			}
+		case reflect.String:
+			if s := v.String(); s != "" && len(s) < 100 {
+				out = append(out, s)
+			}
+		}
+	}
+	walk(reflect.ValueOf(m).Elem(), 0)
+	return out
+}
+
+type cand struct{ kind, val string }
+
 func TestC16(t *testing.T) {
 	seed := hx.Seed()
 	rng := rand.New(rand.NewSource(seed))
 	out := hx.NewOut()
-	defer out.Close("correspondence: 11 fx-core authority messages x valid payloads x bech32 authority candidates (gov, GOV upper, other module accounts, random accounts, upper-case variants) + UpdateStore CAS sequences; monitor: every routed Msg with an Authority field x zero/valid payload x junk and look-alike authorities. non-trivial = distinct (message type, authority kind, outcome)")
+	defer out.Close("correspondence: fx-core authority messages x valid/zero payloads x authority candidates (gov, GOV upper, module accounts incl. those named in the payload, payload addresses, random accounts, look-alike and malformed encodings), observation = stage (authority-format / payload / signer / past-guard); bech32 and EqualFold on mutated spellings; UpdateStore CAS sequences over several stores with the handler's own context after failures; proposals through the real end-blocker; monitor: every routed Msg with an Authority field x zero/valid payload x junk and look-alike authorities. non-trivial = distinct (message type, authority kind, outcome)")
 
 	s := hx.NewSuite(t, 1+rng.Intn(3))
 	app := s.App
 	gov := authtypes.NewModuleAddress(govtypes.ModuleName).String()
 	chains := crosschaintypes.GetSupportChains()
+	keys := app.GetKVStoreKey()
+
+	// ---- address configuration and store spaces of the running app (environment of the model)
+	prefix := sdk.GetConfig().GetBech32AccountAddrPrefix()
+	minLen, maxLen := -1, -1
+	for n := 0; n <= 300; n++ {
+		if sdk.VerifyAddressFormat(make([]byte, n)) == nil {
+			if minLen < 0 {
+				minLen = n
+			}
+			maxLen = n
+		}
+	}
+	var spaceNames []string
+	for name := range keys {
+		spaceNames = append(spaceNames, name)
+	}
+	sort.Strings(spaceNames)
+	envLines := func() {
+		out.Emit(fmt.Sprintf("cfg %s %d %d", hx.HexS(prefix), minLen, maxLen), "ok")
+		out.Emit("spaces "+strings.Join(spaceNames, " "), "ok")
+	}
+	if gov != strings.ToLower(gov) || !isASCII(gov) {
+		out.Violate("the governance authority string is not lower-case ASCII (hypothesis of routed_only_governance_string): " + gov)
+	}
 
 	// ---- all routed messages with an Authority field
 	urls := app.InterfaceRegistry().ListImplementations(sdk.MsgInterfaceProtoName)
 	sort.Strings(urls)
 	var authMsgs []string
 	fxRouted := map[string]bool{}
+	fxURL := map[string]string{}
 	for _, u := range urls {
 		m, err := app.InterfaceRegistry().Resolve(u)
 		if err != nil || !hasAuthority(m) {
@@ -89,6 +167,7 @@ func TestC16(t *testing.T) {
 		authMsgs = append(authMsgs, u)
 		if strings.HasPrefix(reflect.TypeOf(m).Elem().PkgPath(), modPath) {
 			fxRouted[msgKey(sm)] = true
+			fxURL[u] = msgKey(sm)
 		}
 	}
 	out.Stats.Extra["routed_authority_messages"] = authMsgs
@@ -115,11 +194,57 @@ func TestC16(t *testing.T) {
 					out.Violate("extracted handler table lists " + k + " which is not routed")
 				}
 			}
+			// the semantic table: every routed fx-core authority message must be a method of a registered service there
+			var impls []map[string]string
+			if json.Unmarshal(facts["C16.impls"], &impls) == nil && len(impls) > 0 {
+				served := map[string]bool{}
+				for _, im := range impls {
+					served[im["msg"]] = true
+				}
+				for k := range fxRouted {
+					if !served[k] {
+						out.Violate("router has authority message " + k + " for which the extractor found no implementation")
+					}
+				}
+			}
+			var routes []string
+			if json.Unmarshal(facts["C16.routes"], &routes) == nil && len(routes) > 0 {
+				rs := map[string]bool{}
+				for _, r := range routes {
+					rs[r] = true
+				}
+				for _, c := range chains {
+					if !rs[c] {
+						out.Violate("supported chain " + c + " is not among the regenerated crosschain routes")
+					}
+				}
+			}
 		}
 	}
 
 	// ---- valid payload builders for the fx-core messages
-	ctx0 := s.Ctx
+	// a contract that exists, so that a governance-authorised MsgCallContract really takes effect
+	callee := helpers.GenHexAddress()
+	if err := app.EvmKeeper.CreateContractWithCode(s.Ctx, callee, []byte{0x00}); err != nil {
+		t.Fatalf("install callee: %v", err)
+	}
+	// an ERC-20 contract that exists and is not registered, so that a governance-authorised MsgRegisterERC20 takes effect
+	token, err := app.Erc20Keeper.DeployUpgradableToken(s.Ctx, common.BytesToAddress(authtypes.NewModuleAddress(erc20types.ModuleName)), "Sample Token", "SMPL", 18)
+	if err != nil {
+		t.Fatalf("deploy token: %v", err)
+	}
+	tokenAddr := func(rng *rand.Rand) string {
+		if rng.Intn(4) == 0 {
+			return helpers.GenHexAddress().String()
+		}
+		return token.String()
+	}
+	calleeAddr := func(rng *rand.Rand) string {
+		if rng.Intn(4) == 0 {
+			return helpers.GenHexAddress().String() // no such contract: fails after the guard
+		}
+		return callee.String()
+	}
 	valid := func(rng *rand.Rand) []sdk.Msg {
 		chain := hx.Pick(rng, chains)
 		cp := crosschaintypes.DefaultParams()
@@ -130,34 +255,73 @@ func TestC16(t *testing.T) {
 		if rng.Intn(2) == 0 {
 			sw.DisableMsgTypes = []string{sdk.MsgTypeURL(&banktypes.MsgSend{})}
 		}
-		key := []byte{0xFE, byte(rng.Intn(4))}
+		key := []byte{0xFD, byte(rng.Intn(4))}
+		custom := *fxgovtypes.NewCustomParams("0.5", vp, "0.3")
+		if rng.Intn(3) == 0 {
+			custom = fxgovtypes.CustomParams{} // the "delete the entry" early return
+		}
 		return []sdk.Msg{
 			&crosschaintypes.MsgUpdateParams{ChainName: chain, Params: cp},
 			&crosschaintypes.MsgUpdateChainOracles{ChainName: chain, Oracles: []string{helpers.GenAccAddress().String(), helpers.GenAccAddress().String()}},
 			&erc20types.MsgUpdateParams{Params: erc20types.DefaultParams()},
 			&erc20types.MsgRegisterCoin{Metadata: fxtypes.GetCrossChainMetadataManyToOne("Test Token", "TT"+strings.ToUpper(helpers.NewRandSymbol()), 18)},
-			&erc20types.MsgRegisterERC20{Erc20Address: helpers.GenHexAddress().String()},
+			&erc20types.MsgRegisterERC20{Erc20Address: tokenAddr(rng)},
 			&erc20types.MsgToggleTokenConversion{Token: fxtypes.DefaultDenom},
 			&erc20types.MsgUpdateDenomAlias{Denom: fxtypes.DefaultDenom, Alias: "alias" + helpers.NewRandDenom()},
-			&fxevmtypes.MsgCallContract{ContractAddress: helpers.GenHexAddress().String(), Data: "01"},
+			&fxevmtypes.MsgCallContract{ContractAddress: calleeAddr(rng), Data: "01"},
 			&fxgovtypes.MsgUpdateStore{UpdateStores: []fxgovtypes.UpdateStore{{Space: "erc20", Key: hex.EncodeToString(key), OldValue: "", Value: "01"}}},
 			&fxgovtypes.MsgUpdateSwitchParams{Params: sw},
-			&fxgovtypes.MsgUpdateCustomParams{MsgUrl: sdk.MsgTypeURL(&distrtypes.MsgCommunityPoolSpend{}), CustomParams: *fxgovtypes.NewCustomParams("0.5", vp, "0.3")},
+			&fxgovtypes.MsgUpdateCustomParams{MsgUrl: sdk.MsgTypeURL(&distrtypes.MsgCommunityPoolSpend{}), CustomParams: custom},
 		}
 	}
-	_ = ethtypes.ModuleName
+	zeros := func() []sdk.Msg {
+		var ms []sdk.Msg
+		for _, u := range authMsgs {
+			if _, ok := fxURL[u]; ok {
+				pm, _ := app.InterfaceRegistry().Resolve(u)
+				ms = append(ms, pm.(sdk.Msg))
+			}
+		}
+		return ms
+	}
 
 	upper := strings.ToUpper
-	candidates := func(rng *rand.Rand) [][2]string {
-		other := authtypes.NewModuleAddress(hx.Pick(rng, []string{"erc20", "eth", "bsc", "tron", "distribution", "evm", "bonded_tokens_pool", "mint", "fee_collector", "crosschain"})).String()
+	moduleNames := []string{"erc20", "eth", "bsc", "tron", "distribution", "evm", "bonded_tokens_pool", "mint", "fee_collector", "crosschain", "gov", "polygon", "avalanche", "arbitrum", "optimism", "layer2", "migrate", "transfer", "feemarket"}
+	govBz := authtypes.NewModuleAddress(govtypes.ModuleName)
+	modCursor := map[string]int{}
+	candidates := func(rng *rand.Rand, m sdk.Msg) []cand {
+		// module accounts are cycled through PER MESSAGE TYPE (not drawn), two per call, so that every message type
+		// meets every module account within ten calls
+		nextModule := func() string {
+			k := msgKey(m)
+			modCursor[k]++
+			if moduleNames[modCursor[k]%len(moduleNames)] == "gov" {
+				modCursor[k]++
+			}
+			return authtypes.NewModuleAddress(moduleNames[modCursor[k]%len(moduleNames)]).String()
+		}
+		other, other2 := nextModule(), nextModule()
 		acc := helpers.GenAccAddress().String()
-		return [][2]string{
-			{"gov", gov}, {"GOV-upper", upper(gov)}, {"module", other}, {"module-upper", upper(other)},
+		cs := []cand{
+			{"gov", gov}, {"GOV-upper", upper(gov)}, {"module", other}, {"module", other2}, {"module-upper", upper(other2)},
 			{"account", acc}, {"account-upper", upper(acc)},
 		}
+		// every name and every address in the payload: the module account of that name / that address itself
+		ps := payloadStrings(m)
+		rng.Shuffle(len(ps), func(i, j int) { ps[i], ps[j] = ps[j], ps[i] })
+		if len(ps) > 5 {
+			ps = ps[:5]
+		}
+		for _, p := range ps {
+			if _, err := sdk.AccAddressFromBech32(p); err == nil {
+				cs = append(cs, cand{"payload-address", p})
+			} else if len(p) <= 32 {
+				cs = append(cs, cand{"payload-module", authtypes.NewModuleAddress(p).String()})
+			}
+		}
+		return cs
 	}
-	junk := func(rng *rand.Rand) [][2]string {
-		govBz := authtypes.NewModuleAddress(govtypes.ModuleName)
+	junk := func(rng *rand.Rand) []cand {
 		mixed := []byte(gov)
 		for i := len(mixed) - 1; i > 3; i-- {
 			if mixed[i] >= 'a' && mixed[i] <= 'z' {
@@ -166,59 +330,165 @@ func TestC16(t *testing.T) {
 			}
 		}
 		longS := strings.Replace(gov, "s", "ſ", 1) // U+017F folds to 's' under strings.EqualFold
-		kelvin := strings.Replace(gov, "k", "K", 1)
+		kelvin := strings.Replace(gov, "k", "K", 1)  // U+212A folds to 'k'
 		otherHrp := "cosmos"
 		if strings.HasPrefix(gov, "cosmos1") {
 			otherHrp = "fx"
 		}
-		cosmosPrefix, _ := sdk.Bech32ifyAddressBytes(otherHrp, govBz)
-		return [][2]string{
+		otherPrefix, _ := sdk.Bech32ifyAddressBytes(otherHrp, govBz)
+		long, _ := sdk.Bech32ifyAddressBytes(prefix, append(append([]byte{}, govBz...), make([]byte, 12)...))
+		return []cand{
 			{"empty", ""}, {"hex", "0x" + hex.EncodeToString(govBz)}, {"hex-noprefix", hex.EncodeToString(govBz)},
-			{"mixed-case", string(mixed)}, {"long-s", longS}, {"kelvin", kelvin}, {"other-hrp", cosmosPrefix},
+			{"mixed-case", string(mixed)}, {"long-s", longS}, {"kelvin", kelvin}, {"other-hrp", otherPrefix},
 			{"gov-space", gov + " "}, {"space-gov", " " + gov}, {"module-name", "gov"}, {"gov-nul", gov + "\x00"},
-			{"valoper", sdk.ValAddress(govBz).String()},
+			{"valoper", sdk.ValAddress(govBz).String()}, {"32-byte", long}, {"spaces", "   "},
 		}
 	}
 	foldEq := func(a, b string) bool { return strings.EqualFold(a, b) && isASCII(a) && isASCII(b) }
 
-	keys := app.GetKVStoreKey()
-	n := hx.N(40, 600)
+	// one routed call on a fresh branch: observation stage, error, stores changed
+	baseDump := map[string]string{}
+	base := s.Ctx
+	route := func(m sdk.Msg) (err error, panicked string, changed []string) {
+		cctx, _ := base.CacheContext()
+		res := hx.Try(func() error {
+			_, err = app.MsgServiceRouter().Handler(m)(cctx, m)
+			return nil
+		})
+		if strings.HasPrefix(res, "panic") {
+			panicked = res
+		}
+		changed = hx.DiffDump(baseDump, hx.DumpAll(cctx, keys))
+		return
+	}
+	stage := func(m sdk.Msg, payloadOk bool, err error) string {
+		if err == nil {
+			return "past-guard"
+		}
+		if v, ok := m.(sdk.HasValidateBasic); ok {
+			if verr := v.ValidateBasic(); verr != nil {
+				if payloadOk || strings.HasPrefix(verr.Error(), "authority") {
+					return "rejected:authority-format"
+				}
+				return "rejected:payload"
+			}
+		}
+		if errors.Is(err, govtypes.ErrInvalidSigner) {
+			return "rejected:signer"
+		}
+		return "past-guard" // failed later, for a reason that is not the authority
+	}
+	chainOf := func(m sdk.Msg) string {
+		if c, ok := m.(interface{ GetChainName() string }); ok && c.GetChainName() != "" {
+			return c.GetChainName()
+		}
+		return "-"
+	}
+
+	proposer := helpers.GenAccAddress()
+	s.MintToken(proposer, sdk.NewCoin(fxtypes.DefaultDenom, sdkmath.NewInt(1e18).MulRaw(1e9)))
+
+	n := hx.N(24, 400)
 	for it := 0; it < n; it++ {
 		out.Reset()
-		// ---------------- correspondence stream
-		for _, m := range valid(rng) {
-			for _, c := range candidates(rng) {
-				setAuthority(m, c[1])
-				vb := 1
-				if v, ok := m.(sdk.HasValidateBasic); ok && v.ValidateBasic() != nil {
-					vb = 0
-				}
-				cctx, _ := s.Ctx.CacheContext()
-				before := hx.DumpAll(cctx, keys)
+		envLines()
+		// the state the sweep starts from: the committed state, or (odd iterations) a branch on which one round of
+		// governance-authorised privileged messages has already taken effect (a multi-step history)
+		base = s.Ctx
+		if it%2 == 1 {
+			bctx, _ := s.Ctx.CacheContext()
+			applied := 0
+			for _, m := range valid(rng) {
+				setAuthority(m, gov)
 				var err error
-				res := hx.Try(func() error {
-					_, err = app.MsgServiceRouter().Handler(m)(cctx, m)
-					return nil
-				})
-				after := hx.DumpAll(cctx, keys)
-				changed := hx.DiffDump(before, after)
-				obs := "past-guard"
-				if strings.HasPrefix(res, "panic") {
-					obs = res
-				} else if err != nil && (errors.Is(err, govtypes.ErrInvalidSigner) || vb == 0) {
-					obs = "rejected"
-					if len(changed) > 0 {
-						obs = "rejected-but-changed:" + strings.Join(changed, ",")
-					}
-				}
-				out.Emit(fmt.Sprintf("call %s %s %s %d 1", msgKey(m), hx.HexS(gov), hx.HexS(c[1]), vb), obs)
-				out.Count("corr:" + c[0] + ":" + obs)
-				out.Nontrivial(msgKey(m) + "|" + c[0] + "|" + obs)
-				// property monitor
-				if !foldEq(gov, c[1]) && err == nil {
-					out.Violate(fmt.Sprintf("privileged message %s took effect with non-governance authority kind=%s (%q)", msgKey(m), c[0], c[1]))
+				if res := hx.Try(func() error { _, err = app.MsgServiceRouter().Handler(m)(bctx, m); return nil }); res == "ok" && err == nil {
+					applied++
 				}
 			}
+			out.Count(fmt.Sprintf("history:gov-messages-applied:%d", applied))
+			base = bctx
+		}
+		baseDump = hx.DumpAll(base, keys)
+		// ---------------- correspondence stream
+		var msgs []sdk.Msg
+		msgs = append(msgs, valid(rng)...)
+		// the governance address in a payload field (a guard reading the wrong field would accept it there)
+		for _, m := range valid(rng) {
+			v := reflect.ValueOf(m).Elem()
+			for i := 0; i < v.NumField(); i++ {
+				if v.Field(i).Kind() == reflect.String && v.Type().Field(i).Name != "Authority" {
+					bz, err := proto.Marshal(m)
+					c, ok := reflect.New(v.Type()).Interface().(sdk.Msg)
+					if err != nil || !ok || proto.Unmarshal(bz, c) != nil {
+						continue
+					}
+					reflect.ValueOf(c).Elem().Field(i).SetString(gov)
+					msgs = append(msgs, c)
+					out.Count("payload-field-is-gov:" + msgKey(m) + "." + v.Type().Field(i).Name)
+				}
+			}
+		}
+		if it%3 == 0 {
+			msgs = append(msgs, zeros()...)
+		}
+		for _, m := range msgs {
+			setAuthority(m, gov)
+			payloadOk := true
+			if v, ok := m.(sdk.HasValidateBasic); ok && v.ValidateBasic() != nil {
+				payloadOk = false
+			}
+			cs := candidates(rng, m)
+			if rng.Intn(2) == 0 || !payloadOk {
+				cs = append(cs, junk(rng)...)
+			} else {
+				j := junk(rng)
+				cs = append(cs, j[rng.Intn(len(j))], j[rng.Intn(len(j))])
+			}
+			for _, c := range cs {
+				setAuthority(m, c.val)
+				err, panicked, changed := route(m)
+				obs := stage(m, payloadOk, err)
+				if panicked != "" {
+					obs = panicked
+				} else if strings.HasPrefix(obs, "rejected") && len(changed) > 0 {
+					obs = "rejected-but-changed:" + strings.Join(changed, ",")
+				}
+				pk := 0
+				if payloadOk {
+					pk = 1
+				}
+				out.Emit(fmt.Sprintf("call %s %s %s %d %s", msgKey(m), hx.HexS(gov), dash(hx.HexS(c.val)), pk, chainOf(m)), obs)
+				out.Count("corr:" + c.kind + ":" + obs)
+				out.Nontrivial(msgKey(m) + "|" + c.kind + "|" + obs)
+				if c.kind == "gov" && payloadOk {
+					if err == nil {
+						out.Count("gov-takes-effect:" + msgKey(m))
+					} else {
+						out.Count("gov-fails-later:" + msgKey(m))
+					}
+				}
+				// property monitor
+				if !foldEq(gov, c.val) && err == nil {
+					out.Violate(fmt.Sprintf("privileged message %s took effect with non-governance authority kind=%s (%q)", msgKey(m), c.kind, c.val))
+				}
+				if !foldEq(gov, c.val) && err != nil && len(changed) > 0 {
+					out.Violate(fmt.Sprintf("privileged message %s with non-governance authority kind=%s was rejected but changed stores %v", msgKey(m), c.kind, changed))
+				}
+			}
+		}
+		// ---------------- bech32 / EqualFold on mutated spellings
+		for k := 0; k < 40; k++ {
+			sp := mutate(rng, gov, prefix, govBz)
+			_, derr := sdk.AccAddressFromBech32(sp)
+			obs := "err"
+			if derr == nil {
+				a, _ := sdk.AccAddressFromBech32(sp)
+				obs = "ok:" + dash(hex.EncodeToString(a))
+			}
+			out.Emit("bech "+dash(hx.HexS(sp)), obs)
+			out.Count("bech:" + obs[:2])
+			out.Emit(fmt.Sprintf("fold %s %s", hx.HexS(gov), dash(hx.HexS(sp))), fmt.Sprint(strings.EqualFold(gov, sp)))
+			out.Count("fold:" + fmt.Sprint(strings.EqualFold(gov, sp)))
 		}
 		// ---------------- monitor stream: every routed authority message, junk + candidates, zero and valid payloads
 		vmsgs := valid(rng)
@@ -231,38 +501,35 @@ func TestC16(t *testing.T) {
 					list = append(list, vm)
 				}
 			}
+			if _, fx := fxURL[u]; fx && it%4 != 0 {
+				continue // the fx-core messages are swept by the correspondence stream above in every iteration
+			}
 			for _, m := range list {
-				for _, c := range append(junk(rng), candidates(rng)[2:]...) {
-					if foldEq(gov, c[1]) {
+				for _, c := range append(junk(rng), candidates(rng, m)[2:]...) {
+					if foldEq(gov, c.val) {
 						continue
 					}
-					setAuthority(m, c[1])
-					cctx, _ := s.Ctx.CacheContext()
-					before := hx.DumpAll(cctx, keys)
-					var err error
-					res := hx.Try(func() error {
-						_, err = app.MsgServiceRouter().Handler(m)(cctx, m)
-						return nil
-					})
-					after := hx.DumpAll(cctx, keys)
+					setAuthority(m, c.val)
+					err, panicked, changed := route(m)
 					out.Stats.Evaluations++
-					out.Count("mon:" + c[0])
-					out.Nontrivial(u + "|" + c[0])
-					if strings.HasPrefix(res, "panic") {
+					out.Count("mon:" + c.kind)
+					out.Nontrivial(u + "|" + c.kind)
+					if panicked != "" {
 						out.Count("mon-panic:" + u)
 						continue // panics are C20's subject; recovered by baseapp, state discarded
 					}
 					if err == nil {
-						out.ViolateWith(fmt.Sprintf("privileged message %s took effect with non-governance authority kind=%s (%q)", u, c[0], c[1]),
-							[]string{"# monitor: router.Handler(" + u + ") with Authority=" + fmt.Sprintf("%q", c[1]) + " returned no error"})
-					} else if ch := hx.DiffDump(before, after); len(ch) > 0 {
+						out.ViolateWith(fmt.Sprintf("privileged message %s took effect with non-governance authority kind=%s (%q)", u, c.kind, c.val),
+							[]string{"# monitor: router.Handler(" + u + ") with Authority=" + fmt.Sprintf("%q", c.val) + " returned no error"})
+					} else if len(changed) > 0 {
 						out.Count("mon-rejected-after-writes:" + u)
 					}
 				}
 			}
 		}
-		// ---------------- raw store compare-and-set sequences
-		casSeq(s, out, rng, gov, ctx0)
+		// ---------------- raw store compare-and-set sequences, then proposals on the same scratch state
+		cur := casSeq(s, out, rng, gov, junk(rng))
+		propSeq(s, out, rng, gov, proposer, cur)
 	}
 }
 
@@ -275,90 +542,295 @@ func isASCII(s string) bool {
 	return true
 }
 
-// casSeq drives MsgUpdateStore with the governance authority over a scratch key range (erc20 store, prefix 0xFE) with
-// right / wrong old values and unknown store spaces, committing a message's writes only on success as baseapp does.
-func casSeq(s *hx.Suite, out *hx.Out, rng *rand.Rand, gov string, _ sdk.Context) {
+// mutate returns a spelling near the governance address: case changes, substitutions, truncations, other payloads.
+func mutate(rng *rand.Rand, gov, prefix string, govBz []byte) string {
+	r := []rune(gov)
+	switch rng.Intn(12) {
+	case 0:
+		return gov
+	case 1:
+		return strings.ToUpper(gov)
+	case 2: // one letter upper-cased
+		i := rng.Intn(len(r))
+		r[i] = []rune(strings.ToUpper(string(r[i])))[0]
+		return string(r)
+	case 3: // one character replaced by another charset character (checksum breaks, or not a charset character)
+		i := rng.Intn(len(r))
+		r[i] = rune("qpzry9x8gf2tvdw0s3jn54khce6mua7lbio1"[rng.Intn(36)])
+		return string(r)
+	case 4:
+		return gov[:rng.Intn(len(gov))]
+	case 5:
+		return gov + string(rune("qpzl1 "[rng.Intn(6)]))
+	case 6: // non-ASCII look-alike
+		i := rng.Intn(len(r))
+		r[i] = []rune{'ſ', 'K', 'é', 'İ', 'ı', 'Σ'}[rng.Intn(6)]
+		return string(r)
+	case 7: // a valid address of another length / payload
+		bz := make([]byte, []int{0, 1, 19, 20, 21, 32, 33, 255, 256}[rng.Intn(9)])
+		rng.Read(bz)
+		a, err := sdk.Bech32ifyAddressBytes(prefix, bz)
+		if err != nil {
+			return prefix + "1"
+		}
+		if rng.Intn(2) == 0 {
+			return strings.ToUpper(a)
+		}
+		return a
+	case 8: // other prefix, same bytes
+		a, _ := sdk.Bech32ifyAddressBytes([]string{"fx", "cosmos", "fxvaloper", "x", prefix + "1"}[rng.Intn(5)], govBz)
+		return a
+	case 9: // whitespace
+		return []string{" ", "\t", "", gov + "\n", " ", " " + gov}[rng.Intn(6)]
+	case 10: // upper-case with one lower
+		u := []rune(strings.ToUpper(gov))
+		i := rng.Intn(len(u))
+		u[i] = []rune(strings.ToLower(string(u[i])))[0]
+		return string(u)
+	default: // swap two characters
+		i, j := rng.Intn(len(r)), rng.Intn(len(r))
+		r[i], r[j] = r[j], r[i]
+		return string(r)
+	}
+}
+
+var casSpaces = []string{"erc20", "gov", "bank"}
+
+func scratchDump(ctx sdk.Context, getKey func(string) *storetypes.KVStoreKey) string {
+	var obs []string
+	for _, sp := range casSpaces {
+		for _, kv := range hx.RawPrefix(ctx, getKey(sp), []byte{0xFE}) {
+			obs = append(obs, sp+"/"+hex.EncodeToString(kv[0])+"="+dash(hex.EncodeToString(kv[1])))
+		}
+	}
+	sort.Strings(obs)
+	if len(obs) == 0 {
+		return "-"
+	}
+	return strings.Join(obs, ",")
+}
+
+type entryGen struct {
+	ups   []fxgovtypes.UpdateStore
+	parts []string
+	casOk bool
+	after map[string]string
+}
+
+// genEntries builds 1..4 entries over few keys of few spaces, biased to repeat a key and to state the value the key had
+// at the START of the message (stale) as old value.
+func genEntries(rng *rand.Rand, cur map[string]string) entryGen {
+	g := entryGen{casOk: true, after: map[string]string{}}
+	for k, v := range cur {
+		g.after[k] = v
+	}
+	nEnt := 1 + rng.Intn(4)
+	for j := 0; j < nEnt; j++ {
+		space := casSpaces[rng.Intn(len(casSpaces))]
+		if rng.Intn(3) > 0 {
+			space = casSpaces[0]
+		}
+		key := hex.EncodeToString([]byte{0xFE, byte(rng.Intn(3))})
+		if j > 0 && rng.Intn(2) == 0 { // same space and key as the previous entry
+			space, key = g.ups[j-1].Space, g.ups[j-1].Key
+		}
+		spaceOk := true
+		if rng.Intn(20) == 0 {
+			space, spaceOk = "nosuchstore", false
+		}
+		id := space + "/" + key
+		old := g.after[id]
+		switch rng.Intn(12) {
+		case 0:
+			old = hex.EncodeToString([]byte{byte(rng.Intn(3))}) // probably wrong
+		case 1:
+			old = ""
+		case 2, 3:
+			old = cur[id] // value at the start of the message (stale if an earlier entry wrote the key)
+		}
+		val := hex.EncodeToString([]byte{byte(1 + rng.Intn(3))})
+		if rng.Intn(6) == 0 {
+			val = ""
+		}
+		if old != g.after[id] || !spaceOk {
+			g.casOk = false
+		}
+		g.ups = append(g.ups, fxgovtypes.UpdateStore{Space: space, Key: key, OldValue: old, Value: val})
+		g.parts = append(g.parts, fmt.Sprintf("%s:%s:%s:%s", space, key, dash(old), dash(val)))
+		if g.casOk {
+			g.after[id] = val
+		}
+	}
+	return g
+}
+
+// casSeq drives MsgUpdateStore over scratch key ranges (prefix 0xFE of several stores), committing a message's writes
+// only on success as baseapp does; observes the scratch ranges after the message and, after a failure, the handler's
+// own context.
+func casSeq(s *hx.Suite, out *hx.Out, rng *rand.Rand, gov string, junk []cand) map[string]string {
 	app := s.App
-	ekey := app.GetKey(erc20types.StoreKey)
-	// start from a clean scratch range
-	for _, kv := range hx.RawPrefix(s.Ctx, ekey, []byte{0xFE}) {
-		s.Ctx.KVStore(ekey).Delete(kv[0])
+	for _, sp := range casSpaces {
+		k := app.GetKey(sp)
+		for _, kv := range hx.RawPrefix(s.Ctx, k, []byte{0xFE}) {
+			s.Ctx.KVStore(k).Delete(kv[0])
+		}
 	}
 	out.Emit("casreset", "ok")
 	cur := map[string]string{}
-	steps := 3 + rng.Intn(6)
+	steps := 4 + rng.Intn(6)
 	for i := 0; i < steps; i++ {
-		nEnt := 1 + rng.Intn(3)
-		var ups []fxgovtypes.UpdateStore
-		var parts []string
-		shadow := map[string]string{}
-		for k, v := range cur {
-			shadow[k] = v
+		g := genEntries(rng, cur)
+		auth, authKind := gov, "gov"
+		switch rng.Intn(8) {
+		case 0:
+			auth, authKind = helpers.GenAccAddress().String(), "account"
+		case 1:
+			j := junk[rng.Intn(len(junk))]
+			auth, authKind = j.val, j.kind
+		case 2:
+			auth, authKind = strings.ToUpper(gov), "GOV-upper"
 		}
-		casOk := true // every entry's stated old value equals the value current when that entry is applied
-		for j := 0; j < nEnt; j++ {
-			key := hex.EncodeToString([]byte{0xFE, byte(rng.Intn(3))})
-			old := shadow[key]
-			switch rng.Intn(5) {
-			case 0:
-				old = hex.EncodeToString([]byte{byte(rng.Intn(3))}) // probably wrong
-			case 1:
-				old = ""
-			}
-			val := hex.EncodeToString([]byte{byte(1 + rng.Intn(3))})
-			if rng.Intn(6) == 0 {
-				val = ""
-			}
-			space := "erc20"
-			spaceOk := 1
-			if rng.Intn(8) == 0 {
-				space, spaceOk = "nosuchstore", 0
-			}
-			if old != shadow[key] || spaceOk == 0 {
-				casOk = false
-			}
-			ups = append(ups, fxgovtypes.UpdateStore{Space: space, Key: key, OldValue: old, Value: val})
-			parts = append(parts, fmt.Sprintf("%d:%s:%s:%s", spaceOk, key, dash(old), dash(val)))
-			shadow[key] = val
-		}
-		auth := gov
-		authOk := 1
-		if rng.Intn(5) == 0 {
-			auth, authOk = helpers.GenAccAddress().String(), 0
-		}
-		m := &fxgovtypes.MsgUpdateStore{Authority: auth, UpdateStores: ups}
+		m := &fxgovtypes.MsgUpdateStore{Authority: auth, UpdateStores: g.ups}
 		cctx, write := s.Ctx.CacheContext()
 		var err error
 		res := hx.Try(func() error { _, err = app.MsgServiceRouter().Handler(m)(cctx, m); return nil })
+		ctxDump := scratchDump(cctx, app.GetKey)
 		if err == nil && res == "ok" {
 			write()
-		}
-		// observe the scratch range
-		var obs []string
-		for _, kv := range hx.RawPrefix(s.Ctx, ekey, []byte{0xFE}) {
-			obs = append(obs, hex.EncodeToString(kv[0])+"="+dash(hex.EncodeToString(kv[1])))
 		}
 		r := "ok"
 		if err != nil {
 			r = "err"
 		}
 		if res != "ok" {
-			r = res
+			r = "err" // a panic is recovered by baseapp and fails the message
+			out.Count("cas-panic")
 		}
-		if err == nil {
-			cur = shadow
+		obs := r + " " + scratchDump(s.Ctx, app.GetKey)
+		if r == "err" {
+			obs += " ctx=" + ctxDump
 		}
-		out.Emit(fmt.Sprintf("cas %d %s", authOk, strings.Join(parts, " ")), r+" "+strings.Join(obs, ","))
-		out.Count("cas:" + r)
-		out.Nontrivial("cas|" + r + "|" + fmt.Sprint(nEnt) + "|" + fmt.Sprint(authOk))
-		if authOk == 0 && err == nil {
-			out.Violate("raw store update applied with a non-governance authority")
+		if err == nil && res == "ok" {
+			cur = g.after
 		}
-		if !casOk && err == nil && res == "ok" {
+		out.Emit(fmt.Sprintf("cas %s %s %s", hx.HexS(gov), dash(hx.HexS(auth)), strings.Join(g.parts, " ")), obs)
+		out.Count("cas:" + r + ":" + authKind)
+		out.Nontrivial(fmt.Sprintf("cas|%s|%d|%s|%v", r, len(g.ups), authKind, g.casOk))
+		if auth != gov && err == nil && res == "ok" {
+			out.Violate("raw store update applied with a non-governance authority kind=" + authKind)
+		}
+		if !g.casOk && err == nil && res == "ok" {
 			out.Violate("raw store update applied although an entry's stated old value differs from the value current when it is applied (or its store space is unknown)")
 		}
 	}
 	_ = sdkmath.ZeroInt
+	return cur
+}
+
+// propSeq submits governance proposals of 1..3 MsgUpdateStore messages, lets every validator vote yes and runs the
+// real fx-core governance end-blocker after the voting period: all messages take effect, or none.
+func propSeq(s *hx.Suite, out *hx.Out, rng *rand.Rand, gov string, proposer sdk.AccAddress, cur map[string]string) {
+	app := s.App
+	for round := 0; round < 2; round++ {
+		nMsg := 1 + rng.Intn(3)
+		var msgs []sdk.Msg
+		var words []string
+		allOk := true
+		state := cur
+		for i := 0; i < nMsg; i++ {
+			g := genEntries(rng, state)
+			if !allOk {
+				g.casOk = false
+			}
+			msgs = append(msgs, &fxgovtypes.MsgUpdateStore{Authority: gov, UpdateStores: g.ups})
+			words = append(words, "m "+hx.HexS(gov)+" "+strings.Join(g.parts, " "))
+			if !g.casOk {
+				allOk = false
+			} else {
+				state = g.after
+			}
+		}
+		op := "prop " + hx.HexS(gov) + " " + strings.Join(words, " ")
+		cctx, write := s.Ctx.CacheContext()
+		params, err := app.GovKeeper.Params.Get(cctx)
+		if err != nil {
+			out.Emit(op, "no-params")
+			return
+		}
+		var dep sdk.Coins
+		for _, c := range params.MinDeposit {
+			dep = dep.Add(sdk.NewCoin(c.Denom, c.Amount.MulRaw(100)))
+		}
+		sub, err := govv1.NewMsgSubmitProposal(msgs, dep, proposer.String(), "", "raw store update", "raw store update", false)
+		if err != nil {
+			out.Emit(op, "no-submit:"+strings.ReplaceAll(err.Error(), " ", "_"))
+			return
+		}
+		pid, _ := app.GovKeeper.ProposalID.Peek(cctx)
+		var serr error
+		res := hx.Try(func() error { _, serr = app.MsgServiceRouter().Handler(sub)(cctx, sub); return nil })
+		if serr != nil || res != "ok" {
+			out.Emit(op, "submit-failed:"+strings.ReplaceAll(fmt.Sprint(serr, res), " ", "_"))
+			out.Count("prop:submit-failed")
+			return
+		}
+		vals, _ := app.StakingKeeper.GetBondedValidatorsByPower(cctx)
+		for _, v := range vals {
+			vb, _ := sdk.ValAddressFromBech32(v.GetOperator())
+			_ = app.GovKeeper.AddVote(cctx, pid, sdk.AccAddress(vb), govv1.NewNonSplitVoteOption(govv1.OptionYes), "")
+		}
+		p, err := app.GovKeeper.Proposals.Get(cctx, pid)
+		if err != nil || p.VotingEndTime == nil {
+			out.Emit(op, "not-in-voting")
+			out.Count("prop:not-in-voting")
+			return
+		}
+		ectx := cctx.WithBlockTime(p.VotingEndTime.Add(time.Second))
+		var eerr error
+		res = hx.Try(func() error { eerr = fxgov.EndBlocker(ectx, app.GovKeeper); return nil })
+		if eerr != nil || res != "ok" {
+			out.Emit(op, "endblocker-failed:"+strings.ReplaceAll(fmt.Sprint(eerr, res), " ", "_"))
+			out.Violate("governance end-blocker failed or panicked while executing a raw store update proposal: " + fmt.Sprint(eerr, res))
+			return
+		}
+		p, _ = app.GovKeeper.Proposals.Get(cctx, pid)
+		write()
+		st := map[govv1.ProposalStatus]string{govv1.StatusPassed: "passed", govv1.StatusFailed: "failed", govv1.StatusRejected: "rejected"}[p.Status]
+		if st == "" {
+			st = p.Status.String()
+		}
+		dump := scratchDump(s.Ctx, app.GetKey)
+		out.Emit(op, st+" "+dump)
+		out.Count("prop:" + st)
+		out.Nontrivial(fmt.Sprintf("prop|%s|%d", st, nMsg))
+		if st == "passed" {
+			if !allOk {
+				out.Violate("a proposal of raw store updates passed execution although one of its entries states an old value that differs from the value current when it is applied")
+			}
+			cur = state
+		} else if st == "failed" {
+			// nothing of any message may remain
+			want := map[string]string{}
+			for k, v := range cur {
+				want[k] = v
+			}
+			if dump != dumpOf(want) {
+				out.Violate("a failed proposal of raw store updates left writes of its earlier messages/entries in the stores: " + dump + " vs " + dumpOf(want))
+			}
+		}
+	}
+}
+
+func dumpOf(m map[string]string) string {
+	var obs []string
+	for k, v := range m {
+		obs = append(obs, k+"="+dash(v))
+	}
+	sort.Strings(obs)
+	if len(obs) == 0 {
+		return "-"
+	}
+	return strings.Join(obs, ",")
 }
 
 func dash(s string) string {
